@@ -244,7 +244,7 @@ def evaluate(case, ctx):
     elif etail > tau:
         ctx.fail(f'{key}|does_not_stay|{gains}|{region}', f'max error over the last 10% {etail:.3e} rad (tau {tau})')
     if eH > max(e0, tau):
-        ctx.fail(f'{key}|final_error_exceeds_initial|{gains}', f'{eH:.3e} > initial {e0:.3e}')
+        ctx.fail(f'{key}|final_error_exceeds_initial|{gains}|{region}', f'{eH:.3e} > initial {e0:.3e}')
 
 
 def selftest():
